@@ -155,6 +155,10 @@ func (r *schemaLoader) resolveRef(ref *Ref, target interface{}, basePath string)
 		if err != nil {
 			return err
 		}
+		if v := reflect.ValueOf(res); v.Kind() == reflect.Ptr && v.IsNil() {
+			// an unset pointer member of a typed document: the JSON document has no such member
+			return fmt.Errorf("%s points to an unset member: %w", ref.String(), ErrSpec)
+		}
 	}
 	return swag.DynamicJSONToStruct(res, target)
 }
